@@ -296,7 +296,7 @@ class Check:
         self._viol_keys[key] = 1
         if len(self._viol_keys) > self.max_viol_reports:
             return
-        d = VERIF / "replays" / self.pid
+        d = Path(os.environ.get("VERIF_REPLAY_DIR", VERIF / "replays")) / self.pid
         d.mkdir(parents=True, exist_ok=True)
         h = hashlib.sha1(key.encode()).hexdigest()[:12]
         path = d / f"{h}.json"
@@ -325,8 +325,9 @@ class Check:
             ev["coverage"]["known_findings_hit"] = self.known_hits
         if self.notes:
             ev["coverage"]["notes"] = self.notes
-        (VERIF / "evidence").mkdir(exist_ok=True)
-        (VERIF / "evidence" / f"{self.pid}.json").write_text(json.dumps(ev, indent=1, default=str))
+        evdir = Path(os.environ.get("VERIF_EVIDENCE_DIR", VERIF / "evidence"))  # redirected by bin/mutant
+        evdir.mkdir(parents=True, exist_ok=True)
+        (evdir / f"{self.pid}.json").write_text(json.dumps(ev, indent=1, default=str))
         status = "VIOLATED" if self.nviol else "ok"
         print(
             f"[{self.pid}/{self.tier}] {status}: states={self.cov['states']} transitions={self.cov['transitions']} "
